@@ -1,11 +1,9 @@
-(* SliceProofs.v — C05 lemmas.
-   Stage 1: the machine-typed model equals a wrap-free description (range_z / start_z)
-            followed by ONE cast, for all int bounds and extents below 2^31.
-   Stage 2: on slice_core the wrap-free description equals Python's slice.indices,
-            for every extent (no box), with the casts and the binary32 step harmless below 2^24.
+(* SliceProofs.v — C05 lemmas (repaired arithmetic).
+   Stage 1: for int bounds and extents below 2^62 no int64_t operation of the model wraps, and
+            normalize_slice IS Python's PySlice_AdjustIndices (py_start, py_stop, py_step).
+   Stage 2: length and source index equal Python's for every such input (no input class, no box).
    Stage 3: several axes.
    Stdlib only, no axioms. *)
-From Coq Require Import Znumtheory.
 From NM Require Import Base Slice.
 Local Open Scope Z_scope.
 
@@ -24,38 +22,44 @@ Ltac zbh H :=
           | context [?a =? ?b] => destruct (Z.eqb_spec a b)
           end; cbn [andb orb negb] in H; try discriminate H).
 
+Ltac bprop :=
+  repeat match goal with
+  | H : _ && _ = true |- _ => apply andb_true_iff in H; destruct H
+  | H : _ || _ = true |- _ => apply orb_true_iff in H; destruct H
+  | H : (_ <? _) = true |- _ => apply Z.ltb_lt in H
+  | H : (_ <=? _) = true |- _ => apply Z.leb_le in H
+  | H : (_ =? _) = true |- _ => apply Z.eqb_eq in H
+  | H : negb _ = true |- _ => apply negb_true_iff in H
+  | H : (_ =? _) = false |- _ => apply Z.eqb_neq in H
+  end.
+
+
 (* ---------- machine arithmetic ---------- *)
-Definition int_ok (v : Z) : Prop := - 2 ^ 31 < v < 2 ^ 31 - 1.
+Definition int_ok (v : Z) : Prop := - 2 ^ 31 <= v < 2 ^ 31.
 Definition oint_ok (o : option Z) : Prop := match o with None => True | Some v => int_ok v end.
 
-Lemma p24 : 2 ^ 24 = 16777216. Proof. reflexivity. Qed.
 Lemma p31 : 2 ^ 31 = 2147483648. Proof. reflexivity. Qed.
 Lemma p32 : 2 ^ 32 = 4294967296. Proof. reflexivity. Qed.
+Lemma p62 : 2 ^ 62 = 4611686018427387904. Proof. reflexivity. Qed.
 Lemma p63 : 2 ^ 63 = 9223372036854775808. Proof. reflexivity. Qed.
 Lemma p64 : 2 ^ 64 = 18446744073709551616. Proof. reflexivity. Qed.
 
 Lemma u64_small z : 0 <= z < 2 ^ 64 -> u64 z = z.
 Proof. intros. unfold u64. now apply wrap_small. Qed.
 
-Lemma u64_mod z : u64 z = z mod 2 ^ 64. Proof. reflexivity. Qed.
-
-Lemma u64_idem z : u64 (u64 z) = u64 z.
-Proof. unfold u64, wrap. now rewrite Z.mod_mod. Qed.
-
-Lemma u64_add_l x y : u64 (u64 x + y) = u64 (x + y).
-Proof. unfold u64, wrap. now rewrite Zplus_mod_idemp_l. Qed.
-Lemma u64_add_r x y : u64 (x + u64 y) = u64 (x + y).
-Proof. unfold u64, wrap. now rewrite Zplus_mod_idemp_r. Qed.
-Lemma u64_sub_l x y : u64 (u64 x - y) = u64 (x - y).
-Proof. unfold u64, wrap. now rewrite Zminus_mod_idemp_l. Qed.
-Lemma u64_sub_r x y : u64 (x - u64 y) = u64 (x - y).
-Proof. unfold u64, wrap. now rewrite Zminus_mod_idemp_r. Qed.
-Lemma u64_mul_r x y : u64 (x * u64 y) = u64 (x * y).
-Proof. unfold u64, wrap. now rewrite Zmult_mod_idemp_r. Qed.
-
-Lemma i32_small z : - 2 ^ 31 <= z < 2 ^ 31 -> i32 z = z.
+Lemma i64_small z : - 2 ^ 63 <= z < 2 ^ 63 -> i64 z = z.
 Proof.
-  intros H. unfold i32, swrap. change (32 - 1) with 31. rewrite p31, p32 in *.
+  intros H. unfold i64, swrap. change (64 - 1) with 63. rewrite p63, p64 in *.
+  destruct (Z_lt_le_dec z 0) as [Hn|Hp].
+  - replace (z mod 18446744073709551616) with (z + 18446744073709551616)
+      by (apply Z.mod_unique with (-1); lia).
+    destruct (Z.ltb_spec (z + 18446744073709551616) 9223372036854775808); lia.
+  - rewrite Z.mod_small by lia. destruct (Z.ltb_spec z 9223372036854775808); lia.
+Qed.
+
+Lemma i32_small z : - 2 ^ 31 <= z < 2 ^ 31 -> swrap 32 z = z.
+Proof.
+  intros H. unfold swrap. change (32 - 1) with 31. rewrite p31, p32 in *.
   destruct (Z_lt_le_dec z 0) as [Hn|Hp].
   - replace (z mod 4294967296) with (z + 4294967296)
       by (apply Z.mod_unique with (-1); lia).
@@ -63,148 +67,9 @@ Proof.
   - rewrite Z.mod_small by lia. destruct (Z.ltb_spec z 2147483648); lia.
 Qed.
 
-Lemma i32_u64 z : i32 (u64 z) = i32 z.
-Proof.
-  unfold i32, swrap, u64, wrap.
-  replace ((z mod 2 ^ 64) mod 2 ^ 32) with (z mod 2 ^ 32); [reflexivity|].
-  apply Zmod_div_mod; [rewrite p32; lia | rewrite p64; lia |].
-  exists (2 ^ 32). reflexivity.
-Qed.
-
-Lemma u32_small z : 0 <= z < 2 ^ 32 -> u32 z = z.
-Proof. intros. unfold u32. now apply wrap_small. Qed.
-
-(* ---------- Stage 1: wrap-free description of the model ---------- *)
-
-(* the range before the final cast *)
-Definition range_z (n : Z) (start stop step : option Z) : Z :=
-  match start, stop with
-  | None, None => n
-  | Some a, None =>
-      match step with
-      | Some s => if (s <? 0) && (0 <=? a) then a + 1 else n - a
-      | None => n - a
-      end
-  | None, Some b => if b <? 0 then n + b else Z.min b n
-  | Some a, Some b =>
-      let st := Z.min b n in
-      if (st <? 0) && (a <? 0) then st - a
-      else if st <? 0 then n + st - a
-      else if a <? 0 then st - (n + a)
-      else if a <? st then st - a else a - st
-  end.
-
-Definition range_cast (start stop : option Z) (z : Z) : Z :=
-  match start, stop with
-  | None, None => z
-  | Some _, Some _ => i32 z
-  | _, _ => u64 z
-  end.
-
-Lemma clip_stop_eq n b : 0 <= n < 2 ^ 31 -> int_ok b -> clip_stop n b = Z.min b n.
-Proof.
-  intros Hn Hb. unfold clip_stop, int_ok in *. rewrite !i32_small by lia.
-  destruct (Z.ltb_spec b n); lia.
-Qed.
-
-Lemma abs_i_neg v : int_ok v -> v < 0 -> abs_i v = - v.
-Proof. intros Hv Hl. unfold abs_i, int_ok in *. destruct (Z.ltb_spec v 0); [|lia]. apply i32_small. lia. Qed.
-
-Lemma compute_range_eq n a b c :
-  0 <= n < 2 ^ 31 -> oint_ok a -> oint_ok b ->
-  compute_range n a b c = range_cast a b (range_z n a b c).
-Proof.
-  intros Hn Ha Hb. destruct a as [a|], b as [b|]; cbn [compute_range range_z range_cast oint_ok] in *.
-  - (* both *)
-    rewrite clip_stop_eq by assumption.
-    set (st := Z.min b n). assert (Hst : int_ok st) by (unfold int_ok, st in *; lia).
-    destruct (Z.ltb_spec st 0) as [Hs|Hs]; destruct (Z.ltb_spec a 0) as [Hl|Hl]; cbn [andb].
-    + rewrite !abs_i_neg by assumption. rewrite u64_sub_l, u64_sub_r, i32_u64. f_equal. lia.
-    + rewrite !abs_i_neg by assumption. rewrite u64_sub_l, i32_u64. f_equal. lia.
-    + rewrite !abs_i_neg by assumption. rewrite u64_sub_r, i32_u64. f_equal. lia.
-    + destruct (Z.ltb_spec a st); reflexivity.
-  - destruct c as [s|]; [destruct ((s <? 0) && (0 <=? a)); [rewrite i32_small by (unfold int_ok in *; lia)|]|]; reflexivity.
-  - destruct (Z.ltb_spec b 0); [reflexivity|]. now rewrite clip_stop_eq.
-  - reflexivity.
-Qed.
-
-(* start of compute_index before the final cast; the step is py_step *)
-Definition cstop (n b : Z) : Z := Z.max (Z.min b n) (- n).
-Definition start_z (n : Z) (start stop step : option Z) : Z :=
-  match start, stop, step with
-  | None, None, None => 0
-  | Some a, None, None => if 0 <=? a then a else n - a
-  | Some a, Some b, None =>
-      let sv := cstop n b in
-      if (0 <=? a) && (0 <? sv) then a
-      else if (a <? 0) && (0 <? sv) then sv + a
-      else if (0 <=? a) && (sv <? 0) then a
-      else n + a
-  | Some a, Some b, Some c =>
-      let sv := cstop n b in
-      if (0 <=? a) && (0 <=? sv) && (c <? 0) then (if 0 <? sv then sv - 1 else a)
-      else if (a <? 0) && (0 <? sv) && (c <? 0) then sv + a
-      else if (0 <=? a) && (sv <? 0) && (c <? 0) then a
-      else if (a <? 0) && (sv <? 0) && (c <? 0) then n + a - 1
-      else if (0 <=? a) && (0 <? sv) && (0 <? c) then a
-      else if (a <? 0) && (0 <? sv) && (0 <? c) then sv + a
-      else if (0 <=? a) && (sv <? 0) && (0 <? c) then a
-      else n + a
-  | None, Some b, None => 0
-  | None, Some b, Some c =>
-      let sv := cstop n b in
-      if (0 <? sv) && (0 <? c) then 0 else if (0 <? sv) && (c <? 0) then n else 0
-  | None, None, Some c => if c <? 0 then n - 1 else 0
-  | Some a, None, Some c =>
-      if (0 <=? a) && (0 <? c) then a
-      else if (0 <=? a) && (c <? 0) then a
-      else if (a <? 0) && (0 <? c) then n + a
-      else a
-  end.
-
-Lemma clip_stop2_eq n b : 0 <= n < 2 ^ 31 -> int_ok b -> clip_stop2 n b = cstop n b.
-Proof.
-  intros Hn Hb. unfold clip_stop2, cstop. rewrite clip_stop_eq by assumption.
-  rewrite i32_u64, i32_small by (unfold int_ok in *; lia).
-  destruct (Z.ltb_spec (- n) (Z.min b n)); lia.
-Qed.
-
-Lemma u64_lin x k c : u64 (u64 x + u64 (k * u64 c)) = u64 (x + k * c).
-Proof. now rewrite u64_mul_r, u64_add_l, u64_add_r. Qed.
-Lemma u64_lin0 k c : u64 (0 + u64 (k * u64 c)) = u64 (0 + k * c).
-Proof. now rewrite u64_mul_r, u64_add_r. Qed.
-
-Lemma compute_index_eq k n a b c :
-  0 <= n < 2 ^ 31 -> oint_ok a -> oint_ok b ->
-  compute_index k n a b c = u64 (start_z n a b c + k * py_step c).
-Proof.
-  intros Hn Ha Hb.
-  assert (Hcs : forall b, int_ok b -> int_ok (cstop n b)) by (intros; unfold cstop, int_ok in *; lia).
-  destruct a as [a|], b as [b|], c as [c|]; cbn [compute_index start_z py_step oint_ok] in *;
-    rewrite ?clip_stop2_eq by assumption.
-  - (* a b c *)
-    specialize (Hcs b Hb). set (sv := cstop n b) in *. unfold int_ok in *.
-    destruct (0 <=? a) eqn:E1; destruct (0 <=? sv) eqn:E2; destruct (c <? 0) eqn:E3;
-      destruct (0 <? sv) eqn:E4; destruct (a <? 0) eqn:E5; destruct (sv <? 0) eqn:E6; destruct (0 <? c) eqn:E7;
-      cbn [andb]; try (exfalso; lia);
-      rewrite ?(i32_small (sv - 1)), ?(i32_small (sv + a)) by lia; apply u64_lin.
-  - specialize (Hcs b Hb). set (sv := cstop n b) in *. unfold int_ok in *.
-    destruct (0 <=? a) eqn:E1; destruct (0 <? sv) eqn:E4; destruct (a <? 0) eqn:E5; destruct (sv <? 0) eqn:E6;
-      cbn [andb]; try (exfalso; lia);
-      rewrite ?(i32_small (sv + a)) by lia; rewrite u64_add_l, Z.mul_1_r; reflexivity.
-  - destruct ((0 <=? a) && (0 <? c)); [apply u64_lin|].
-    destruct ((0 <=? a) && (c <? 0)); [apply u64_lin|].
-    destruct ((a <? 0) && (0 <? c)); apply u64_lin.
-  - destruct (0 <=? a); rewrite u64_add_l, Z.mul_1_r; reflexivity.
-  - destruct ((0 <? cstop n b) && (0 <? c)); [apply u64_lin0|].
-    destruct ((0 <? cstop n b) && (c <? 0)); [apply u64_lin|apply u64_lin0].
-  - now rewrite Z.mul_1_r.
-  - reflexivity.
-  - now rewrite Z.mul_1_r.
-Qed.
+Definition ceil_div (s t : Z) : Z := - ((- s) / t).
 
 (* ---------- Stage 2a: facts about the Spec alone ---------- *)
-
 Lemma ceil_div_pos s t : 0 < t -> 0 < s -> ceil_div s t = (s - 1) / t + 1.
 Proof.
   intros Ht Hs. unfold ceil_div.
@@ -279,96 +144,117 @@ Proof.
     rewrite ceil_div_pos in H0 by lia. lia.
 Qed.
 
-(* ---------- Stage 2b: on slice_core the wrap-free description is Python's ---------- *)
 
-Ltac bprop :=
-  repeat match goal with
-  | H : _ && _ = true |- _ => apply andb_true_iff in H; destruct H
-  | H : _ || _ = true |- _ => apply orb_true_iff in H; destruct H
-  | H : (_ <? _) = true |- _ => apply Z.ltb_lt in H
-  | H : (_ <=? _) = true |- _ => apply Z.leb_le in H
-  | H : (_ =? _) = true |- _ => apply Z.eqb_eq in H
-  | H : negb _ = true |- _ => apply negb_true_iff in H
-  | H : (_ =? _) = false |- _ => apply Z.eqb_neq in H
-  end.
+(* ---------- Stage 1: the model's normalisation is Python's, no operation wraps ---------- *)
 
-(* the linear content of "model = Python" on one axis *)
-Definition core_facts (n : Z) (a b c : option Z) : Prop :=
-  let s := range_z n a b c in
-  let st := py_step c in
-  let t := Z.abs st in
-  let a' := py_start n a c in
-  let b' := py_stop n b c in
-  st <> 0 /\ t <= 2 ^ 24 /\
-  (- t < s <= n) /\
-  (if 0 <? st
-   then (a' < b' -> s = b' - a' /\ start_z n a b c = a') /\ (b' <= a' -> s <= 0)
-   else (b' < a' -> s = a' - b' /\ start_z n a b c = a') /\ (a' <= b' -> s <= 0)).
-
-Lemma core_facts_holds n a b c :
-  0 <= n -> slice_core n a b c = true -> core_facts n a b c.
+Lemma clamp64_eq n st v : 0 <= n < 2 ^ 62 -> int_ok v ->
+  clamp64 n (if st <? 0 then -1 else 0) (if st <? 0 then n - 1 else n) v = py_clamp n st v.
 Proof.
-  intros Hn H. unfold slice_core, step_ok24, core_both_pos, core_both_neg in H.
-  destruct a as [a|], b as [b|], c as [c|]; bprop;
-    unfold core_facts; cbn [range_z start_z py_start py_stop py_step]; unfold py_clamp, cstop;
-    (split; [lia|]); (split; [try lia; rewrite p24; lia|]); zb; lia.
+  intros Hn Hv. unfold clamp64, py_clamp, int_ok in *. rewrite p31, p62 in *.
+  destruct (Z.ltb_spec v 0).
+  - rewrite i64_small by (rewrite p63; lia). zb; lia.
+  - zb; lia.
+Qed.
+
+Lemma normalize_slice_eq n a b c :
+  0 <= n < 2 ^ 62 -> oint_ok a -> oint_ok b -> oint_ok c ->
+  normalize_slice n a b c = (py_start n a c, py_stop n b c, py_step c).
+Proof.
+  intros Hn Ha Hb Hc. unfold normalize_slice, py_start, py_stop.
+  assert (Hst : match c with None => 1 | Some s => i64 s end = py_step c).
+  { destruct c as [s|]; cbn in *; [|reflexivity]. unfold int_ok in Hc. rewrite p31 in Hc.
+    apply i64_small. rewrite p63. lia. }
+  rewrite Hst. set (st := py_step c).
+  rewrite (i64_small n) by (rewrite p62, p63 in *; lia).
+  rewrite (i64_small (n - 1)) by (rewrite p62, p63 in *; lia).
+  assert (Hi : forall v, int_ok v -> i64 v = v)
+    by (intros v Hv; unfold int_ok in Hv; rewrite p31 in Hv; apply i64_small; rewrite p63; lia).
+  apply f_equal2; [apply f_equal2|reflexivity].
+  - destruct a as [a|]; cbn in Ha.
+    + rewrite (Hi a Ha). now apply clamp64_eq.
+    + destruct (st <? 0); reflexivity.
+  - destruct b as [b|]; cbn in Hb.
+    + rewrite (Hi b Hb). now apply clamp64_eq.
+    + destruct (st <? 0); reflexivity.
 Qed.
 
 Lemma compute_step_eq c : oint_ok c -> compute_step c = Z.abs (py_step c).
 Proof.
   destruct c as [c|]; cbn [compute_step py_step oint_ok]; [|reflexivity].
   unfold int_ok. intros H. rewrite p31 in H.
-  destruct (Z.ltb_spec c 0); rewrite u32_small by (rewrite p32; lia); lia.
+  rewrite (i64_small c) by (rewrite p63; lia).
+  destruct (Z.ltb_spec c 0).
+  - rewrite i64_small by (rewrite p63; lia). rewrite u64_small by (rewrite p64; lia). lia.
+  - rewrite u64_small by (rewrite p64; lia). lia.
 Qed.
 
-Lemma slice_python_on_core n a b c :
-  0 <= n < 2 ^ 24 -> oint_ok a -> oint_ok b -> oint_ok c ->
-  slice_core n a b c = true ->
+(* (r + t - 1) / t is the integer ceiling *)
+Lemma ceil_by_add r t : 0 < t -> 0 <= r -> (r + t - 1) / t = ceil_div r t.
+Proof.
+  intros Ht Hr. destruct (Z.eq_dec r 0) as [->|Hz].
+  - rewrite ceil_div_zero by lia. apply Z.div_small. lia.
+  - rewrite ceil_div_pos by lia. replace (r + t - 1) with ((r - 1) + 1 * t) by lia.
+    rewrite Z.div_add by lia. reflexivity.
+Qed.
+
+(* ---------- Stage 2: one axis equals Python, for every input of the argument types ---------- *)
+Lemma slice_python n a b c :
+  0 <= n < 2 ^ 62 -> oint_ok a -> oint_ok b -> oint_ok c -> py_step c <> 0 ->
   slice_len n a b c = Len (py_len n a b c)
   /\ forall k, 0 <= k < py_len n a b c -> compute_index k n a b c = py_index k n a b c.
 Proof.
-  intros Hn Ha Hb Hc H.
-  assert (Hn31 : 0 <= n < 2 ^ 31) by (rewrite p24, p31 in *; lia).
-  pose proof (core_facts_holds n a b c ltac:(lia) H) as (Hst & Ht & Hs & Hm).
+  intros Hn Ha Hb Hc Hst.
   pose proof (py_len_bounds n a b c ltac:(lia) Hst) as HL.
-  set (s := range_z n a b c) in *. set (st := py_step c) in *. set (t := Z.abs st) in *.
-  set (a' := py_start n a c) in *. set (b' := py_stop n b c) in *.
-  assert (Hcast : range_cast a b s = s).
-  { unfold range_cast. destruct a, b; try reflexivity;
-      [apply i32_small; rewrite p24, p31 in *; lia | | ];
-      (destruct (Z_le_gt_dec 0 s); [apply u64_small; rewrite p24, p64 in *; lia|]).
-    all: exfalso; unfold slice_core, step_ok24 in H; subst s; cbn [range_z] in *;
-      destruct c; bprop; revert g; zb; lia. }
-  assert (Hlen : ceil_div s t = py_len n a b c).
-  { unfold py_len. fold st a' b'. destruct (Z.ltb_spec 0 st) as [Hp|Hp].
-    - replace (st <? 0) with false by (symmetry; apply Z.ltb_ge; lia).
-      replace t with st in * by lia. destruct Hm as [M1 M2].
-      destruct (Z.ltb_spec a' b') as [L|L].
-      + destruct (M1 L) as [-> _]. apply ceil_div_pos; lia.
-      + apply ceil_div_zero; [lia|]. specialize (M2 L). lia.
-    - replace (st <? 0) with true by (symmetry; apply Z.ltb_lt; lia).
-      replace t with (- st) in * by lia. destruct Hm as [M1 M2].
-      destruct (Z.ltb_spec b' a') as [L|L].
-      + destruct (M1 L) as [-> _]. apply ceil_div_pos; lia.
-      + apply ceil_div_zero; [lia|]. specialize (M2 L). lia. }
+  assert (Hstep : int_ok (py_step c)) by (destruct c; cbn in *; [assumption|unfold int_ok; rewrite p31; lia]).
+  unfold int_ok in Hstep. rewrite p31 in Hstep.
   split.
-  - unfold slice_len. rewrite compute_range_eq, compute_step_eq by assumption.
-    fold s st t. rewrite Hcast. unfold float_len.
-    replace (t <=? 0) with false by (symmetry; apply Z.leb_gt; lia).
-    replace (Z.abs s <=? 2 ^ 24) with true by (symmetry; apply Z.leb_le; rewrite p24 in *; lia).
-    replace (t <=? 2 ^ 24) with true by (symmetry; apply Z.leb_le; lia).
-    cbn [andb]. rewrite Hlen. f_equal. apply u64_small. rewrite p24, p64 in *. lia.
-  - intros k Hk. rewrite compute_index_eq by assumption.
+  - unfold slice_len, compute_range. rewrite normalize_slice_eq, compute_step_eq by assumption.
+    set (st := py_step c) in *. set (s0 := py_start n a c). set (s1 := py_stop n b c).
+    assert (Ht : 0 < Z.abs st < 2 ^ 32) by (rewrite p32; lia).
+    replace (Z.abs st =? 0) with false by (symmetry; apply Z.eqb_neq; lia).
+    unfold py_len. fold st s0 s1. rewrite p62 in Hn.
+    destruct (Z.ltb_spec st 0) as [Hneg|Hpos].
+    + destruct (py_bounds_neg n a b c ltac:(lia) Hneg) as [B0 B1]. fold s0 s1 in B0, B1.
+      rewrite (i64_small (s0 - s1)) by (rewrite p63; lia).
+      replace (Z.abs st) with (- st) in * by lia.
+      destruct (Z.ltb_spec s1 s0) as [L|L].
+      * replace (0 <? s0 - s1) with true by (symmetry; apply Z.ltb_lt; lia).
+        rewrite (u64_small (s0 - s1)) by (rewrite p64; lia).
+        rewrite (u64_small (s0 - s1 + - st)) by (rewrite p64; lia).
+        rewrite (u64_small (s0 - s1 + - st - 1)) by (rewrite p64; lia).
+        f_equal. rewrite ceil_by_add by lia. apply ceil_div_pos; lia.
+      * replace (0 <? s0 - s1) with false by (symmetry; apply Z.ltb_ge; lia).
+        rewrite (u64_small 0) by (rewrite p64; lia).
+        rewrite (u64_small (0 + - st)) by (rewrite p64; lia).
+        rewrite (u64_small (0 + - st - 1)) by (rewrite p64; lia).
+        f_equal. apply Z.div_small. lia.
+    + assert (Hp : 0 < st) by lia.
+      destruct (py_bounds_pos n a b c ltac:(lia) Hp) as [B0 B1]. fold s0 s1 in B0, B1.
+      rewrite (i64_small (s1 - s0)) by (rewrite p63; lia).
+      replace (Z.abs st) with st in * by lia.
+      destruct (Z.ltb_spec s0 s1) as [L|L].
+      * replace (0 <? s1 - s0) with true by (symmetry; apply Z.ltb_lt; lia).
+        rewrite (u64_small (s1 - s0)) by (rewrite p64; lia).
+        rewrite (u64_small (s1 - s0 + st)) by (rewrite p64; lia).
+        rewrite (u64_small (s1 - s0 + st - 1)) by (rewrite p64; lia).
+        f_equal. rewrite ceil_by_add by lia. apply ceil_div_pos; lia.
+      * replace (0 <? s1 - s0) with false by (symmetry; apply Z.ltb_ge; lia).
+        rewrite (u64_small 0) by (rewrite p64; lia).
+        rewrite (u64_small (0 + st)) by (rewrite p64; lia).
+        rewrite (u64_small (0 + st - 1)) by (rewrite p64; lia).
+        f_equal. apply Z.div_small. lia.
+  - intros k Hk. unfold compute_index. rewrite normalize_slice_eq by assumption.
     pose proof (py_index_inb n a b c k ltac:(lia) Hst Hk) as Hin.
-    unfold py_index in *. fold st a' in Hin |- *.
-    assert (Hstart : start_z n a b c = a').
-    { unfold py_len in Hk. fold st a' b' in Hk.
-      destruct (Z.ltb_spec 0 st) as [Hp|Hp].
-      - replace (st <? 0) with false in Hk by (symmetry; apply Z.ltb_ge; lia).
-        destruct Hm as [M1 _]. destruct (Z.ltb_spec a' b') as [L|L]; [apply (M1 L)|lia].
-      - replace (st <? 0) with true in Hk by (symmetry; apply Z.ltb_lt; lia).
-        destruct Hm as [M1 _]. destruct (Z.ltb_spec b' a') as [L|L]; [apply (M1 L)|lia]. }
-    rewrite Hstart. apply u64_small. rewrite p24, p64 in *. lia.
+    unfold py_index in *. set (st := py_step c) in *. set (s0 := py_start n a c) in *.
+    rewrite p62 in Hn.
+    assert (Hs0 : -1 <= s0 <= n).
+    { destruct (Z.ltb_spec st 0) as [Hneg|Hpos].
+      - destruct (py_bounds_neg n a b c ltac:(lia) Hneg) as [B0 _]. fold s0 in B0. lia.
+      - destruct (py_bounds_pos n a b c ltac:(lia) ltac:(fold st; lia)) as [B0 _]. fold s0 in B0. lia. }
+    rewrite (i64_small k) by (rewrite p63; lia).
+    rewrite (i64_small (k * st)) by (rewrite p63; lia).
+    rewrite i64_small by (rewrite p63; lia).
+    apply u64_small. rewrite p64. lia.
 Qed.
 
 (* boolean form of the hypotheses *)
@@ -382,12 +268,11 @@ Lemma axis_dom_python n a b c :
   slice_len n a b c = Len (py_len n a b c)
   /\ forall k, 0 <= k < py_len n a b c -> compute_index k n a b c = py_index k n a b c.
 Proof.
-  unfold axis_dom. intros H.
-  apply andb_true_iff in H as [H Hcore]. apply andb_true_iff in H as [H Hc].
+  unfold axis_dom, ext_ok. intros H.
+  apply andb_true_iff in H as [H Hnz]. apply andb_true_iff in H as [H Hc].
   apply andb_true_iff in H as [H Hb]. apply andb_true_iff in H as [Hn Ha].
-  apply Z.ltb_lt in Hn.
-  assert (0 <= n) by (unfold slice_core in Hcore; apply andb_true_iff in Hcore as [Hc0 _]; now apply Z.leb_le in Hc0).
-  apply slice_python_on_core; auto using ointb_ok.
+  bprop. apply slice_python; auto using ointb_ok.
+  destruct c as [s|]; cbn in *; [|lia]. apply negb_true_iff in Hnz. now apply Z.eqb_neq in Hnz.
 Qed.
 
 (* ---------- Stage 3: several axes ---------- *)
@@ -435,30 +320,34 @@ Proof.
   induction i as [|x i IH]; intros s Hs H; [reflexivity|].
   inversion H as [|x' n i' s' Hx Hi]; subst. cbn [forallb] in Hs. apply andb_true_iff in Hs as [Hn Hs].
   unfold ext_ok in Hn. bprop. cbn [map]. rewrite (IH s') by assumption.
-  rewrite u64_small by (rewrite p24, p64 in *; lia). reflexivity.
+  rewrite u64_small by (rewrite p62, p64 in *; lia). reflexivity.
 Qed.
 
-Lemma int_index_eq n i : ext_ok n = true -> - n <= i < n -> int_index n i = if i <? 0 then i + n else i.
+Lemma abs_i_neg v : - 2 ^ 31 < v -> v < 0 -> abs_i v = - v.
+Proof. intros Hv Hl. unfold abs_i. destruct (Z.ltb_spec v 0); [|lia]. apply i32_small. rewrite p31 in *. lia. Qed.
+
+Lemma int_index_eq n i : ext_ok n = true -> - 2 ^ 31 < i -> - n <= i < n -> int_index n i = if i <? 0 then i + n else i.
 Proof.
-  unfold ext_ok. intros Hn Hi. bprop. unfold int_index. rewrite p24 in *.
+  unfold ext_ok. intros Hn Hi0 Hi. bprop. unfold int_index. rewrite p62 in *.
   destruct (Z.ltb_spec i 0).
-  - rewrite abs_i_neg by (unfold int_ok; rewrite ?p31; lia). rewrite u64_small by (rewrite p64; lia). lia.
+  - rewrite abs_i_neg by lia. rewrite u64_small by (rewrite p64; lia). lia.
   - apply u64_small. rewrite p64. lia.
 Qed.
 
 Lemma multi_axis_go nf : forall sls shape,
-  axes_core nf shape sls = true ->
+  axes_dom nf shape sls = true ->
   shape_slice_go nf shape sls = map Len (py_shape_axes shape (py_expand nf sls))
   /\ forall idx, inb idx (py_shape_axes shape (py_expand nf sls)) ->
        slice_go nf idx shape sls = py_index_axes idx shape (py_expand nf sls).
 Proof.
   induction sls as [|s r IH]; intros shape H.
   - destruct shape; [|discriminate]. split; [reflexivity|]. intros idx _. reflexivity.
-  - destruct s as [i| |a b c]; cbn [axes_core] in H.
+  - destruct s as [i| |a b c]; cbn [axes_dom] in H.
     + (* integer *)
       destruct shape as [|n shape]; [discriminate|].
-      apply andb_true_iff in H as [H Hr]. apply andb_true_iff in H as [H Hi2]. apply andb_true_iff in H as [Hn Hi1].
-      apply Z.leb_le in Hi1. apply Z.ltb_lt in Hi2.
+      apply andb_true_iff in H as [H Hr]. apply andb_true_iff in H as [H Hi2]. apply andb_true_iff in H as [H Hi1].
+      apply andb_true_iff in H as [H Hi4]. apply andb_true_iff in H as [Hn Hi3].
+      apply Z.leb_le in Hi1. apply Z.ltb_lt in Hi2. apply Z.ltb_lt in Hi3.
       destruct (IH shape Hr) as [IHs IHi].
       cbn [shape_slice_go slice_go py_expand py_shape_axes py_index_axes tl hd].
       split; [exact IHs|]. intros idx Hin. rewrite (IHi idx Hin). rewrite int_index_eq by (auto; lia). reflexivity.
@@ -526,8 +415,3 @@ Definition on_axis {T} (f : Z -> option Z -> option Z -> option Z -> T) (x : Z *
   let '(n, (a, b, c)) := x in f n a b c.
 Definition count {A} (f : A -> bool) (l : list A) : Z := Z.of_nat (length (filter f l)).
 
-(* sample on which the binary32 computation and the exact ceiling are cross-checked *)
-Definition szs (lo n : Z) : list Z := map (fun i => i + lo) (zrange n).
-Definition float_sample_s : list Z :=
-  szs (-120) 241 ++ szs (2 ^ 24 - 40) 41 ++ szs (- 2 ^ 24) 40 ++ [65536; 1000000; 8388607; 8388608; 8388609; 12345677].
-Definition float_sample_t : list Z := szs 1 40 ++ [1000; 4097; 65535; 2 ^ 24 - 1; 2 ^ 24].
